@@ -602,6 +602,14 @@ pub struct TCase {
 
 pub struct C06Threads;
 
+/// The same thread scenario with the subscribers attached to
+/// `source.share_threads()` instead of the subject itself (C11: every
+/// subscriber present at an emission receives it, whoever joins or leaves on
+/// other threads meanwhile).
+pub struct C11Threads;
+
+type TH = Box<dyn SubHandle + Send>;
+
 #[derive(Clone, Debug)]
 struct OpRec {
   tid: usize,
@@ -666,24 +674,40 @@ impl Scenario for C06Threads {
   }
 
   fn run(&self, case: &Value) -> Result<Outcome, String> {
+    run_threads(case, false)
+  }
+}
+
+fn run_threads(case: &Value, share: bool) -> Result<Outcome, String> {
+  {
     let case: TCase = serde_json::from_value(case.clone()).map_err(|e| e.to_string())?;
     if case.threads.is_empty() || case.threads.len() > 4 || case.stable > 4 || case.leavers > 4 {
       return Err("bad shape".into());
     }
+    if share && case.threads.iter().flatten().any(|o| matches!(o, TOp::UnsubSubject)) {
+      return Err("no subject-level unsubscribe in the share arm".into());
+    }
     let shr = Shared::new();
     let w = World::with_shared(shr.clone());
     let subject = SubjectThreads::<i64, E>::default();
+    let subscribe: Arc<dyn Fn(Probe) -> TH + Send + Sync> = if share {
+      let so = subject.clone().share_threads();
+      Arc::new(move |p| Box::new(so.clone().actual_subscribe(p)) as TH)
+    } else {
+      let sj = subject.clone();
+      Arc::new(move |p| Box::new(sj.clone().actual_subscribe(p)) as TH)
+    };
     let n_pre = case.stable + case.leavers;
     // probes: pre-subscribed first, then one slot per (thread, op index) for Subscribe ops
     let mut logs: Vec<Arc<ProbeLog>> = Vec::new();
-    let mut pre_handles: Vec<Option<SubscriberThreads<Probe>>> = Vec::new();
+    let mut pre_handles: Vec<Option<TH>> = Vec::new();
     for _ in 0..n_pre {
       let l = ProbeLog::new(true);
-      let u = subject.clone().actual_subscribe(Probe(l.clone()));
+      let u = subscribe(Probe(l.clone()));
       logs.push(l);
       pre_handles.push(Some(u));
     }
-    let leaver_handles: Arc<Mutex<Vec<Option<SubscriberThreads<Probe>>>>> =
+    let leaver_handles: Arc<Mutex<Vec<Option<TH>>>> =
       Arc::new(Mutex::new(pre_handles.drain(case.stable..).collect()));
     let mut dyn_slots: Vec<Vec<Option<usize>>> = Vec::new();
     for ops in &case.threads {
@@ -708,10 +732,11 @@ impl Scenario for C06Threads {
       let subject = subject.clone();
       let oplog = oplog.clone();
       let leaver_handles = leaver_handles.clone();
+      let subscribe = subscribe.clone();
       let stable = case.stable;
       bodies.push(Box::new(move || {
         let mut subject = Some(subject);
-        let mut own: Vec<(usize, SubscriberThreads<Probe>)> = Vec::new();
+        let mut own: Vec<(usize, TH)> = Vec::new();
         for (i, op) in ops.iter().enumerate() {
           let sh = shared();
           let Some(s) = subject.as_mut() else { break };
@@ -726,7 +751,7 @@ impl Scenario for C06Threads {
             TOp::Subscribe => {
               let k = slots[i].unwrap();
               let invoke = sh.stamp();
-              let u = s.clone().actual_subscribe(Probe(logs[k].clone()));
+              let u = subscribe(Probe(logs[k].clone()));
               let ret = sh.stamp();
               own.push((k, u));
               oplog.lock().unwrap().push(OpRec { tid: t, op: "subscribe".into(), item: 0, sub: k, invoke, ret });
@@ -734,7 +759,7 @@ impl Scenario for C06Threads {
             TOp::UnsubOwn => {
               if let Some((k, u)) = own.pop() {
                 let invoke = sh.stamp();
-                u.unsubscribe();
+                u.unsub();
                 let ret = sh.stamp();
                 oplog.lock().unwrap().push(OpRec { tid: t, op: "unsubscribe".into(), item: 0, sub: k, invoke, ret });
               }
@@ -747,7 +772,7 @@ impl Scenario for C06Threads {
               };
               if let Some((k, u)) = h {
                 let invoke = sh.stamp();
-                u.unsubscribe();
+                u.unsub();
                 let ret = sh.stamp();
                 oplog.lock().unwrap().push(OpRec { tid: t, op: "unsubscribe".into(), item: 0, sub: k, invoke, ret });
               }
@@ -816,6 +841,33 @@ impl Scenario for C06Threads {
       resolved: Some(serde_json::to_value(resolved).unwrap()),
       sample,
     })
+  }
+}
+
+impl Scenario for C11Threads {
+  fn name(&self) -> &'static str {
+    "c11.threads"
+  }
+  fn components(&self) -> (&'static [&'static str], &'static [&'static str]) {
+    (&["share_threads over a SubjectThreads source: ShareOpThreads, RefCountSubscription, inner SubjectThreads (MutArc locks interleaved)"], &["OS thread scheduling (baton scheduler)"])
+  }
+  fn generate(&self, rng: &mut Rng, tier: Tier) -> Value {
+    // the subject scenario's histories without the subject-level unsubscribe
+    loop {
+      let v = C06Threads.generate(rng, tier);
+      let c: TCase = serde_json::from_value(v.clone()).unwrap();
+      if !c.threads.iter().flatten().any(|o| matches!(o, TOp::UnsubSubject)) {
+        return v;
+      }
+    }
+  }
+  fn run(&self, case: &Value) -> Result<Outcome, String> {
+    let mut o = run_threads(case, true)?;
+    if let Some(v) = o.violation.as_mut() {
+      v.rule = v.rule.replace("c06.", "c11.");
+      v.site = "share_threads".into();
+    }
+    Ok(o)
   }
 }
 
